@@ -749,7 +749,18 @@ impl Version {
         let first_key: &[u8] = &sst.first_key;
         let last_key: &[u8] = &sst.last_key;
         let upper_level = lower_level + 1;
+        // A sibling in the same (sorted) level that overlaps this sst shares a boundary key with
+        // it: the versions of that key straddle both files.  Moving only one of them down would
+        // put the newer versions below the older ones, so such an sst must be compacted together
+        // with its sibling instead of moved.
+        let splits_a_key = lower_level > 0
+            && self.levels[lower_level].ssts.iter().any(|x| {
+                !Arc::ptr_eq(x, sst)
+                    && x.first_key.as_slice() <= last_key
+                    && first_key <= x.last_key.as_slice()
+            });
         if upper_level < self.levels.len()
+            && !splits_a_key
             && self.levels[upper_level].lower_bound(first_key)
                 == self.levels[upper_level].upper_bound(last_key)
         {
